@@ -1,28 +1,37 @@
 // L2: the adversarial environment for *reader-side* functions (HybridProtection::attempt,
 // ::fallback, HybridStrategy::load, guard drop / into_inner).
 //
-// Installed as the `before` hook of the atomics shim: immediately before every atomic operation of
-// the function under proof, the environment – an abstraction of ANY number of other threads doing
-// anything the proved writer-side guarantees allow – may perform a few actions:
+// Installed as the `before` hook of the atomics shim: immediately before the atomic operations of
+// the function under proof at which another thread's action can make a difference to what the call
+// observes, the environment – an abstraction of ANY number of other threads doing anything the
+// proved writer-side guarantees allow – may perform the following micro-steps, each optional, in
+// this order (one round per hook; `rounds` rounds when asked for):
 //
-//   WRITE(q)    some thread stores pool object q into the storage under proof (a complete swap; the
-//               writer keeps the reference to the value it removed for as long as it likes)
-//   PAY(s)      a writer of ANY container that removed the (live) object whose address is in my
-//               slot s pays that debt: slot := NONE, count += 1, the count now belongs to me
 //   HELP        (only while my control holds the generation I published and my active_addr is the
 //               storage) a writer hands over a counted value it loaded from the storage after my
 //               publication: envelope := value, control := envelope|REPLACEMENT_TAG
-//   DESTROY(p)  every other owner lets go of p: it is destroyed. Allowed only if the writer-side
-//               contracts (L-W1, L-W2, L-H: remove -> help -> pay all slots -> release) permit it:
-//               p is not stored, I own no count on it, no count is in flight to me, none of my
-//               slots holds a *covered* debt on it (published while / before p was stored), and it
-//               was not stored during my still open helping window
-//   REALLOC(p)  the allocator hands the address of a destroyed object out again: a NEW object with
-//               the same address (epoch + 1), which has never been in the storage under proof (it
-//               may live in another container, whose writers may then PAY my stale slots)
+//   PAY         a writer of ANY container that removed the (live) object whose address is in the
+//               slot this call published pays that debt: slot := NONE, count += 1, the count now
+//               belongs to the call
+//   WRITE*(q)   any number of complete writes by other threads: the storage ends up holding the
+//               live object q, an arbitrary set of live objects passed through it on the way; the
+//               writers keep the references to what they removed for as long as they like
+//   REUSE       every other owner lets go of the *focus object* (the one whose address the call
+//               last read from the storage): it is destroyed and the allocator hands its address
+//               out again for a NEW object (epoch + 1) that has never been in the storage under
+//               proof (it may live in another container, whose writers may then PAY). Allowed only
+//               if the writer-side contracts (L-W1, L-W2, L-H: remove -> help -> pay all slots ->
+//               release) permit the destruction: it is not stored, the call owns no count on it,
+//               none is in flight to it, the call's slot holds no *covered* debt on it, no older
+//               guard of this thread pins it, and it was not stored during the call's still open
+//               helping window.
+//   WRITE*(q)   again (so that A-B-A on the address is one round)
+//   PAY, HELP   again
 //
-// Ghost state records the history of the storage during the call, which of my slots are covered,
-// which counts I own, and the steps I took. The contracts in hybrid_rg.rs are stated over it.
+// Restricting REUSE and PAY to the focus object / the call's own slot is a partial-order
+// argument: actions on other objects and on slots of older guards commute with the call's steps and
+// cannot be observed by it (clearing an older slot before the scan is a symbolic pre-state already;
+// an object pinned by an older guard cannot die). This is assumption A-LAZY in the evidence.
 #![allow(dead_code, unused_imports)]
 
 use core::sync::atomic::Ordering::SeqCst;
@@ -37,127 +46,131 @@ pub const NONE: usize = 0b11;
 
 pub struct Env {
     pub on: bool,
-    /// address of the storage under proof
-    pub storage: usize,
+    pub storage: Option<&'static AtomicPtr<Obj>>,
+    pub storage_addr: usize,
     pub node: Option<&'static Node>,
     /// a second real node whose embedded envelope the environment's helper uses
     pub helper: Option<&'static Node>,
     pub slot_addr: [usize; 9],
     pub control_addr: usize,
-    /// how many actions the environment may take before each step
-    pub budget_per_step: u8,
-    /// total number of environment actions taken (for evidence / covers)
+    pub rounds: u8,
+    /// number of environment micro-steps that had an effect
     pub actions: usize,
 
     // ---- ghost state
-    /// object was the value of the storage at some instant during the call (this incarnation)
+    /// object (this incarnation) was the value of the storage at some instant during the call
     pub in_hist: [bool; POOL],
-    /// reallocation counter per address
     pub epoch: [usize; POOL],
-    /// new incarnation belongs to another pointee type / pointer kind (F3)
-    pub foreign_kind: [bool; POOL],
     pub allow_foreign_kind: bool,
-    /// slot holds a debt that a remover of its object is obliged to pay before releasing it
-    pub covered: [bool; 9],
-    /// slots written by the call under proof (index -> value it wrote)
-    pub mine_written: [bool; 9],
-    /// slot was paid by the environment since I wrote it
-    pub paid_by_env: [bool; 9],
-    /// counts paid into slots of older guards of this thread (they own them, not this call)
-    pub older_paid: [usize; POOL],
-    /// counts in flight to me inside an envelope
+    /// an older guard of this thread holds a validated debt on the object: it cannot die
+    pub pinned: [bool; POOL],
+    /// the slot the call under proof published (9 = none yet) and what it wrote there
+    pub my_slot: usize,
+    pub my_slot_val: usize,
+    /// that slot holds a debt that every remover of its object must pay before releasing it
+    pub covered: bool,
+    pub paid_by_env: bool,
+    /// object whose address the call last read from the storage (POOL = none)
+    pub focus: usize,
+    /// counts in flight to the call inside an envelope
     pub inflight: [usize; POOL],
-    /// my helping window: control == the generation I published, not yet replaced / closed
+    /// helping window: control == the generation I published, not yet replaced / closed
     pub window_open: bool,
     pub my_gen: usize,
-    /// object was stored at some instant while the window was open
     pub in_window: [bool; POOL],
     pub helped: bool,
-    pub frozen: bool,
 }
 
 pub static mut ENV: Env = Env {
     on: false,
-    storage: 0,
+    storage: None,
+    storage_addr: 0,
     node: None,
     helper: None,
     slot_addr: [0; 9],
     control_addr: 0,
-    budget_per_step: 1,
+    rounds: 1,
     actions: 0,
     in_hist: [false; POOL],
     epoch: [0; POOL],
-    foreign_kind: [false; POOL],
     allow_foreign_kind: false,
-    covered: [false; 9],
-    mine_written: [false; 9],
-    paid_by_env: [false; 9],
-    older_paid: [0; POOL],
+    pinned: [false; POOL],
+    my_slot: 9,
+    my_slot_val: 0,
+    covered: false,
+    paid_by_env: false,
+    focus: POOL,
     inflight: [0; POOL],
     window_open: false,
     my_gen: 0,
     in_window: [false; POOL],
     helped: false,
-    frozen: false,
 };
 
 pub fn env() -> &'static mut Env {
     unsafe { &mut ENV }
 }
 
-fn storage_cell() -> &'static AtomicPtr<Obj> {
-    unsafe { &*(ENV.storage as *const AtomicPtr<Obj>) }
-}
-
 pub fn stored_now() -> usize {
-    storage_cell().raw().load(SeqCst) as usize
+    env().storage.unwrap().raw().load(SeqCst) as usize
 }
 
-fn slot_now(i: usize) -> usize {
-    list_h::peek_slot(env().node.unwrap(), i)
+fn my_slot_now() -> usize {
+    let e = env();
+    list_h::peek_slot(e.node.unwrap(), e.my_slot)
 }
 
 /// Sets the environment up for one call on `storage` by the thread owning `node`.
-pub fn install(storage: usize, node: &'static Node, helper: &'static Node, budget: u8) {
+pub fn install(storage: &AtomicPtr<Obj>, node: &'static Node, helper: &'static Node, rounds: u8) {
     let e = env();
     e.on = true;
-    e.storage = storage;
+    e.storage = Some(unsafe { &*(storage as *const AtomicPtr<Obj>) });
+    e.storage_addr = storage as *const _ as usize;
     e.node = Some(node);
     e.helper = Some(helper);
-    let mut i = 0;
-    while i < 9 {
-        e.slot_addr[i] = list_h::slot_addr(node, i);
-        e.covered[i] = false;
-        e.mine_written[i] = false;
-        e.paid_by_env[i] = false;
-        i += 1;
-    }
     e.control_addr = list_h::control_addr(node);
-    e.budget_per_step = budget;
+    e.rounds = rounds;
     e.actions = 0;
     let s = stored_now();
     let mut p = 0;
     while p < POOL {
         e.in_hist[p] = s == model::addr(p);
         e.epoch[p] = 0;
-        e.foreign_kind[p] = false;
         e.inflight[p] = 0;
-        e.older_paid[p] = 0;
         e.in_window[p] = false;
+        e.pinned[p] = false;
         p += 1;
     }
-    // slots already occupied at entry belong to older guards: whoever removes their object pays them
-    i = 0;
+    // slots already occupied at entry are validated debts of older guards: they pin their objects
+    let mut i = 0;
     while i < 9 {
-        e.covered[i] = slot_now(i) != NONE;
+        e.slot_addr[i] = list_h::slot_addr(node, i);
+        if let Some(p) = model::index_of(list_h::peek_slot(node, i)) {
+            e.pinned[p] = true;
+        }
         i += 1;
     }
+    e.my_slot = 9;
+    e.my_slot_val = 0;
+    e.covered = false;
+    e.paid_by_env = false;
+    e.focus = POOL;
     e.window_open = false;
     e.helped = false;
-    e.frozen = false;
     model::log_reset();
     model::track_mine(true);
     unsafe { crate::verif::set_hooks(Some(before), Some(after)) };
+}
+
+/// The guard under proof already holds a validated debt in slot `s` on object `p` (guard drop /
+/// into_inner harnesses).
+pub fn adopt_slot(s: usize, p: usize) {
+    let e = env();
+    e.my_slot = s;
+    e.my_slot_val = model::addr(p);
+    e.covered = true;
+    e.focus = p;
+    e.pinned[p] = false;
 }
 
 pub fn uninstall() {
@@ -166,51 +179,58 @@ pub fn uninstall() {
     model::track_mine(false);
 }
 
-fn role_slot(addr: usize) -> Option<usize> {
+fn role_slot(addr: usize) -> usize {
     let e = env();
+    let mut r = 9;
     let mut i = 0;
     while i < 9 {
         if e.slot_addr[i] == addr {
-            return Some(i);
+            r = i;
         }
         i += 1;
     }
-    None
+    r
 }
 
-fn has_role(addr: usize) -> bool {
-    let e = env();
-    addr == e.storage || addr == e.control_addr || role_slot(addr).is_some() || addr == list_h::active_addr_addr(e.node.unwrap())
-        || addr == list_h::space_offer_addr(e.node.unwrap())
-}
+// ------------------------------------------------------------------------------------ micro-steps
 
-// ------------------------------------------------------------------------------------ actions
-
-fn act_write(q: usize) {
+fn step_write(q: usize) {
     let e = env();
+    // values that passed through the storage on the way
+    let mut p = 0;
+    while p < POOL {
+        if p != q && nd::any_bool() && model::ledger().alive[p] {
+            passed_through(p);
+        }
+        p += 1;
+    }
     if !model::ledger().alive[q] {
         return;
     }
-    // the writer owns a reference to q which moves into the storage; it takes the old one out
     unsafe { model::LEDGER.cnt[q] += 1 };
-    storage_cell().raw().store(model::addr(q) as *mut Obj, SeqCst);
-    e.in_hist[q] = true;
-    if e.window_open {
-        e.in_window[q] = true;
-    }
-    let mut i = 0;
-    while i < 9 {
-        if slot_now(i) == model::addr(q) {
-            e.covered[i] = true;
-        }
-        i += 1;
-    }
+    e.storage.unwrap().raw().store(model::addr(q) as *mut Obj, SeqCst);
+    passed_through(q);
     e.actions += 1;
 }
 
-fn act_pay(s: usize) {
+fn passed_through(p: usize) {
     let e = env();
-    let c = slot_now(s);
+    e.in_hist[p] = true;
+    if e.window_open {
+        e.in_window[p] = true;
+    }
+    // a debt published before a value was (still / again) stored must be paid by its remover
+    if e.my_slot < 9 && !e.paid_by_env && my_slot_now() == model::addr(p) && e.my_slot_val == model::addr(p) {
+        e.covered = true;
+    }
+}
+
+fn step_pay() {
+    let e = env();
+    if e.my_slot >= 9 {
+        return;
+    }
+    let c = my_slot_now();
     let p = match model::index_of(c) {
         Some(p) => p,
         None => return,
@@ -219,28 +239,22 @@ fn act_pay(s: usize) {
         // nobody can hold a reference to a destroyed object, so nobody can be paying for it
         return;
     }
-    list_h::poke_slot(e.node.unwrap(), s, NONE);
+    list_h::poke_slot(e.node.unwrap(), e.my_slot, NONE);
     unsafe { model::LEDGER.cnt[p] += 1 };
-    if e.mine_written[s] {
-        // a debt published by the call under proof: the count is handed to it
-        model::mine_add(p, 1);
-    } else {
-        // a debt of an older guard of this thread: that guard owns the count now
-        e.older_paid[p] += 1;
-    }
-    e.covered[s] = false;
-    e.paid_by_env[s] = true;
+    model::mine_add(p, 1);
+    e.covered = false;
+    e.paid_by_env = true;
     e.actions += 1;
 }
 
-fn act_help() {
+fn step_help() {
     let e = env();
     if !e.window_open {
         return;
     }
     let node = e.node.unwrap();
     // L-H: only for a reader that is loading *this* storage
-    if helping_h_active_addr(node) != e.storage {
+    if list_h::view(node).helping.active_addr != e.storage_addr {
         return;
     }
     // the helper's counted load of the storage (after my publication: the window is open)
@@ -258,53 +272,35 @@ fn act_help() {
     e.actions += 1;
 }
 
-fn helping_h_active_addr(node: &'static Node) -> usize {
-    list_h::view(node).helping.active_addr
-}
-
 fn may_destroy(p: usize) -> bool {
     let e = env();
-    let l = model::ledger();
-    if !l.alive[p] {
+    if !model::ledger().alive[p] || e.pinned[p] {
         return false;
     }
     if stored_now() == model::addr(p) {
         return false;
     }
-    if model::mine(p) > 0 || e.inflight[p] > 0 || e.older_paid[p] > 0 {
+    if model::mine(p) > 0 || e.inflight[p] > 0 {
         return false;
     }
     if e.window_open && e.in_window[p] {
         return false;
     }
-    let mut i = 0;
-    while i < 9 {
-        if e.covered[i] && slot_now(i) == model::addr(p) {
-            return false;
-        }
-        i += 1;
+    if e.my_slot < 9 && e.covered && my_slot_now() == model::addr(p) {
+        return false;
     }
     true
 }
 
-fn act_destroy(p: usize) {
-    if !may_destroy(p) {
-        return;
-    }
-    unsafe {
-        model::LEDGER.cnt[p] = 0;
-        model::LEDGER.alive[p] = false;
-        model::LEDGER.destroyed[p] += 1;
-    }
-    env().actions += 1;
-}
-
-fn act_realloc(p: usize) {
+fn step_reuse() {
     let e = env();
-    if model::ledger().alive[p] {
+    let p = e.focus;
+    if p >= POOL || !may_destroy(p) {
         return;
     }
     unsafe {
+        model::LEDGER.destroyed[p] += 1;
+        // ... and the address is handed out again: a new object, owned by someone else
         model::LEDGER.cnt[p] = 1;
         model::LEDGER.alive[p] = true;
     }
@@ -312,40 +308,56 @@ fn act_realloc(p: usize) {
     e.in_hist[p] = false;
     e.in_window[p] = false;
     if e.allow_foreign_kind {
-        e.foreign_kind[p] = nd::any_bool();
-        model::set_foreign_kind(p, e.foreign_kind[p]);
+        model::set_foreign_kind(p, nd::any_bool());
     }
-    // stale slots of mine that still carry this address are not covered: they were not published
-    // for this object
-    let mut i = 0;
-    while i < 9 {
-        if slot_now(i) == model::addr(p) {
-            e.covered[i] = false;
-        }
-        i += 1;
-    }
+    // a stale debt of mine that still carries this address was not published for this object
+    e.covered = false;
     e.actions += 1;
 }
 
-fn one_action() {
-    match nd::below(6) {
-        0 => {}
-        1 => act_write(nd::below(POOL as u8) as usize),
-        2 => act_pay(nd::below(9) as usize),
-        3 => act_help(),
-        4 => act_destroy(nd::below(POOL as u8) as usize),
-        _ => act_realloc(nd::below(POOL as u8) as usize),
+fn round() {
+    if nd::any_bool() {
+        step_help();
+    }
+    if nd::any_bool() {
+        step_pay();
+    }
+    if nd::any_bool() {
+        step_write(nd::below(POOL as u8) as usize);
+    }
+    if nd::any_bool() {
+        step_reuse();
+    }
+    if nd::any_bool() {
+        step_write(nd::below(POOL as u8) as usize);
+    }
+    if nd::any_bool() {
+        step_pay();
+    }
+    if nd::any_bool() {
+        step_help();
     }
 }
 
+/// The environment acts where the call under proof can observe it: before every access to the
+/// storage except the very first one (acting before the call's first step is the same as a
+/// different pre-state), before every access to its control word while a transaction is open, and
+/// before every read-modify-write of one of its slots.
 pub fn before(ev: &Event) {
     let e = env();
-    if !e.on || e.frozen || !has_role(ev.addr) {
+    if !e.on {
+        return;
+    }
+    let is_slot = role_slot(ev.addr) < 9;
+    let relevant = (ev.addr == e.storage_addr && (e.focus < POOL || e.window_open))
+        || (ev.addr == e.control_addr && e.window_open)
+        || (is_slot && ev.op != Op::Load);
+    if !relevant {
         return;
     }
     let mut k = 0;
-    while k < e.budget_per_step {
-        one_action();
+    while k < e.rounds {
+        round();
         k += 1;
     }
 }
@@ -357,17 +369,25 @@ pub fn after(ev: &Event) {
     }
     model::record_after(ev);
     // ghost bookkeeping of what the call under proof itself did
-    if let Some(s) = role_slot(ev.addr) {
+    if ev.addr == e.storage_addr && ev.op == Op::Load {
+        e.focus = match model::index_of(ev.result) {
+            Some(p) => p,
+            None => POOL,
+        };
+    }
+    let s = role_slot(ev.addr);
+    if s < 9 {
         if ev.op == Op::Swap {
             // I published a debt in slot s
-            e.mine_written[s] = true;
-            e.paid_by_env[s] = false;
-            // it is covered iff its object is the stored one right now (a remover comes later in
+            e.my_slot = s;
+            e.my_slot_val = ev.a;
+            e.paid_by_env = false;
+            // it is covered iff its object is the stored one right now (its remover comes later in
             // the SeqCst order and must see it); otherwise only my confirmation can tell
-            e.covered[s] = stored_now() == ev.a && model::index_of(ev.a).map(|p| model::ledger().alive[p]).unwrap_or(false);
+            e.covered = stored_now() == ev.a && model::index_of(ev.a).map(|p| model::ledger().alive[p]).unwrap_or(false);
         }
-        if ev.op == Op::Cas && ev.ok && ev.b == NONE {
-            e.covered[s] = false;
+        if ev.op == Op::Cas && ev.ok && ev.b == NONE && s == e.my_slot {
+            e.covered = false;
         }
     }
     if ev.addr == e.control_addr && ev.op == Op::Swap {
@@ -384,10 +404,10 @@ pub fn after(ev: &Event) {
             // I closed it. If my generation was still there, no writer that removed a value of the
             // window has got past `help` on my node yet, so every such writer will still scan my
             // helping slot (written before this swap): the debt in it is covered.
-            if e.window_open && ev.result == e.my_gen {
-                if let Some(p) = model::index_of(slot_now(8)) {
-                    if e.in_window[p] {
-                        e.covered[8] = true;
+            if e.window_open && ev.result == e.my_gen && e.my_slot == 8 {
+                if let Some(p) = model::index_of(my_slot_now()) {
+                    if e.in_window[p] && !e.paid_by_env {
+                        e.covered = true;
                     }
                 }
             }
